@@ -726,24 +726,32 @@ class GCodeBuilder(GCodeCore):
             raise ValueError(f"Not a valid halt mode: {mode}.")
 
         mode = HaltMode(mode)
+        previous_mode = self.state.halt_mode
         self.state._set_halt_mode(mode)
 
-        # Track temperatures if provided
+        try:
+            # Format first, so invalid values are rejected early
 
-        keys = ["S", "R"]  # Wait when heating, or wait always
-        temperature = self._get_user_param(keys, kwargs)
+            statement = self._get_statement(mode, kwargs)
 
-        if temperature is not None:
-            if mode == HaltMode.WAIT_FOR_BED:
-                self.state._set_target_bed_temperature(temperature)
-            elif mode == HaltMode.WAIT_FOR_HOTEND:
-                self.state._set_target_hotend_temperature(temperature)
-            elif mode == HaltMode.WAIT_FOR_CHAMBER:
-                self.state._set_target_chamber_temperature(temperature)
+            # Track temperatures if provided
+
+            keys = ["S", "R"]  # Wait when heating, or wait always
+            temperature = self._get_user_param(keys, kwargs)
+
+            if temperature is not None:
+                if mode == HaltMode.WAIT_FOR_BED:
+                    self.state._set_target_bed_temperature(temperature)
+                elif mode == HaltMode.WAIT_FOR_HOTEND:
+                    self.state._set_target_hotend_temperature(temperature)
+                elif mode == HaltMode.WAIT_FOR_CHAMBER:
+                    self.state._set_target_chamber_temperature(temperature)
+        except ValueError:
+            self.state._set_halt_mode(previous_mode)
+            raise
 
         # Output the statement
 
-        statement = self._get_statement(mode, kwargs)
         self.write(statement)
 
     def wait(self) -> None:
